@@ -1,9 +1,1376 @@
-//! stub — being built
+//! C14 — the server opens a tunnel only for fully valid, authenticated upgrade requests.
+//!
+//! Bounded-exhaustive enumeration. Subject: `rusty_penguin_lib::server::State` called
+//! in-process as a hyper `Service` (pass `inproc`, pass `backend`), and the public
+//! `server::serve_connection` over a loopback TCP connection with literal HTTP/1.1 bytes
+//! (pass `wire`). The oracle is a reference predicate written from the property statement
+//! plus a differential requirement: every non-valid request to `/ws` (and, with obfuscation,
+//! to `/health` and `/version`) must receive exactly the response the same request receives
+//! on an unknown path of the same length.
+
 use crate::Args;
 use crate::report::Report;
+use bytes::Bytes;
+use http::{HeaderName, HeaderValue, Method, Request};
+use http_body_util::BodyExt;
+use hyper::service::Service;
+use rusty_penguin_lib::arg::BackendUrl;
+use rusty_penguin_lib::http::body::IncomingOrFullBody;
+use rusty_penguin_lib::server::State;
+use serde_json::{Value, json};
+use std::collections::HashSet;
+use std::net::SocketAddr;
+use std::panic::AssertUnwindSafe;
+use std::str::FromStr;
+use std::sync::Mutex;
+use std::sync::atomic::{AtomicU64, Ordering};
+use std::time::Duration;
+
+// ---------------------------------------------------------------------------------------
+// The harness's own SHA-1 / base64 (RFC 3174 / RFC 4648) — never the subject's
+// ---------------------------------------------------------------------------------------
+
+fn sha1(data: &[u8]) -> [u8; 20] {
+    let mut h: [u32; 5] = [0x6745_2301, 0xEFCD_AB89, 0x98BA_DCFE, 0x1032_5476, 0xC3D2_E1F0];
+    let mut msg = data.to_vec();
+    let bit_len = (data.len() as u64).wrapping_mul(8);
+    msg.push(0x80);
+    while msg.len() % 64 != 56 {
+        msg.push(0);
+    }
+    msg.extend_from_slice(&bit_len.to_be_bytes());
+    for chunk in msg.chunks_exact(64) {
+        let mut w = [0u32; 80];
+        for i in 0..16 {
+            w[i] = u32::from_be_bytes([chunk[4 * i], chunk[4 * i + 1], chunk[4 * i + 2], chunk[4 * i + 3]]);
+        }
+        for i in 16..80 {
+            w[i] = (w[i - 3] ^ w[i - 8] ^ w[i - 14] ^ w[i - 16]).rotate_left(1);
+        }
+        let [mut a, mut b, mut c, mut d, mut e] = h;
+        for (i, wi) in w.iter().enumerate() {
+            let (f, k) = match i {
+                0..=19 => ((b & c) | (!b & d), 0x5A82_7999u32),
+                20..=39 => (b ^ c ^ d, 0x6ED9_EBA1),
+                40..=59 => ((b & c) | (b & d) | (c & d), 0x8F1B_BCDC),
+                _ => (b ^ c ^ d, 0xCA62_C1D6),
+            };
+            let t = a.rotate_left(5).wrapping_add(f).wrapping_add(e).wrapping_add(k).wrapping_add(*wi);
+            e = d;
+            d = c;
+            c = b.rotate_left(30);
+            b = a;
+            a = t;
+        }
+        h[0] = h[0].wrapping_add(a);
+        h[1] = h[1].wrapping_add(b);
+        h[2] = h[2].wrapping_add(c);
+        h[3] = h[3].wrapping_add(d);
+        h[4] = h[4].wrapping_add(e);
+    }
+    let mut out = [0u8; 20];
+    for (i, x) in h.iter().enumerate() {
+        out[4 * i..4 * i + 4].copy_from_slice(&x.to_be_bytes());
+    }
+    out
+}
+
+fn base64(data: &[u8]) -> String {
+    const T: &[u8; 64] = b"ABCDEFGHIJKLMNOPQRSTUVWXYZabcdefghijklmnopqrstuvwxyz0123456789+/";
+    let mut s = String::new();
+    for c in data.chunks(3) {
+        let n = (u32::from(c[0]) << 16) | (u32::from(*c.get(1).unwrap_or(&0)) << 8) | u32::from(*c.get(2).unwrap_or(&0));
+        s.push(T[(n >> 18) as usize & 63] as char);
+        s.push(T[(n >> 12) as usize & 63] as char);
+        s.push(if c.len() > 1 { T[(n >> 6) as usize & 63] as char } else { '=' });
+        s.push(if c.len() > 2 { T[n as usize & 63] as char } else { '=' });
+    }
+    s
+}
+
+/// RFC 6455 section 4.2.2: base64(SHA-1(key ++ GUID)).
+fn accept_hash(key: &[u8]) -> String {
+    let mut v = key.to_vec();
+    v.extend_from_slice(b"258EAFA5-E914-47DA-95CA-C5AB0DC85B11");
+    base64(&sha1(&v))
+}
+
+/// Is the value a well-formed Sec-WebSocket-Key (base64 of 16 bytes)?
+fn key_well_formed(k: &str) -> bool {
+    let b = k.as_bytes();
+    b.len() == 24 && b[22] == b'=' && b[23] == b'=' && b[..22].iter().all(|c| c.is_ascii_alphanumeric() || *c == b'+' || *c == b'/')
+}
+
+// ---------------------------------------------------------------------------------------
+// Literal requests / configurations
+// ---------------------------------------------------------------------------------------
+
+const PSK: &str = "Correct-Psk_1";
+const NOT_FOUND_BODY: &str = "verif: configured not-found body";
+const KEY_SAMPLE: &str = "dGhlIHNhbXBsZSBub25jZQ==";
+const KEY_OTHER: &str = "7S3qp57psT3kwWF29CFJNg==";
+const WANT_PROTOCOL: &str = "penguin-v7";
+
+#[derive(Clone, Debug, PartialEq, Eq, Hash)]
+struct Cfg {
+    psk: Option<String>,
+    obfs: bool,
+    /// "none" | "echo" | "down"
+    backend: String,
+    forwarding_headers: bool,
+}
+
+impl Cfg {
+    fn to_json(&self) -> Value {
+        json!({"psk": self.psk, "obfs": self.obfs, "backend": self.backend, "forwarding_headers": self.forwarding_headers, "not_found_body": NOT_FOUND_BODY})
+    }
+    fn from_json(v: &Value) -> Self {
+        Self {
+            psk: v["psk"].as_str().map(str::to_string),
+            obfs: v["obfs"].as_bool().expect("replay: obfs"),
+            backend: v["backend"].as_str().expect("replay: backend").to_string(),
+            forwarding_headers: v["forwarding_headers"].as_bool().unwrap_or(false),
+        }
+    }
+}
+
+#[derive(Clone, Debug, PartialEq, Eq, Hash)]
+struct ReqLit {
+    method: String,
+    uri: String,
+    headers: Vec<(String, String)>,
+    on_upgrade: bool,
+}
+
+impl ReqLit {
+    fn to_json(&self) -> Value {
+        json!({"method": self.method, "uri": self.uri, "headers": self.headers.iter().map(|(n, v)| json!([n, v])).collect::<Vec<_>>(), "on_upgrade_extension": self.on_upgrade})
+    }
+    fn from_json(v: &Value) -> Self {
+        Self {
+            method: v["method"].as_str().expect("replay: method").into(),
+            uri: v["uri"].as_str().expect("replay: uri").into(),
+            headers: v["headers"].as_array().expect("replay: headers").iter().map(|p| (p[0].as_str().expect("name").to_string(), p[1].as_str().expect("value").to_string())).collect(),
+            on_upgrade: v["on_upgrade_extension"].as_bool().unwrap_or(true),
+        }
+    }
+    fn values(&self, name: &str) -> Vec<&str> {
+        self.headers.iter().filter(|(n, _)| n.eq_ignore_ascii_case(name)).map(|(_, v)| v.as_str()).collect()
+    }
+    /// (prefix up to and including the authority, path, query with '?')
+    fn split_uri(&self) -> (&str, &str, &str) {
+        let u = self.uri.as_str();
+        let (pre, rest) = match u.find("://") {
+            Some(i) => {
+                let after = &u[i + 3..];
+                let j = after.find('/').unwrap_or(after.len());
+                u.split_at(i + 3 + j)
+            }
+            None => ("", u),
+        };
+        let q = rest.find('?').unwrap_or(rest.len());
+        (pre, &rest[..q], &rest[q..])
+    }
+    fn path(&self) -> &str {
+        self.split_uri().1
+    }
+    /// The same request on an unknown path of the same length (so that length-dependent
+    /// parts of a backend's answer cannot differ).
+    fn twin(&self) -> Self {
+        let (pre, path, q) = self.split_uri();
+        let unknown: String = std::iter::once('/').chain(std::iter::repeat_n('z', path.len().saturating_sub(1))).collect();
+        Self { uri: format!("{pre}{unknown}{q}"), ..self.clone() }
+    }
+}
+
+// ---------------------------------------------------------------------------------------
+// Reference predicate (from the statement)
+// ---------------------------------------------------------------------------------------
+
+#[derive(Clone, Debug, PartialEq, Eq)]
+enum Class {
+    /// every condition of the statement holds
+    Valid,
+    /// at least one condition certainly fails; the label names the first failing condition
+    Invalid(String),
+    /// no condition certainly fails, but the statement does not decide (label says why)
+    Silent(String),
+}
+
+/// How a presented value relates to the wanted one (coarse, for violation keys).
+fn relation(v: &str, want: &str, case_insensitive: bool) -> &'static str {
+    let (a, b) = if case_insensitive { (v.to_ascii_lowercase(), want.to_ascii_lowercase()) } else { (v.to_string(), want.to_string()) };
+    if a == b {
+        "equal"
+    } else if v.is_empty() {
+        "empty"
+    } else if !case_insensitive && v.eq_ignore_ascii_case(want) {
+        "case-variant"
+    } else if b.starts_with(&a) {
+        "proper-prefix"
+    } else if a.starts_with(&b) {
+        "extended"
+    } else if a.contains(&b) {
+        "contains-wanted"
+    } else {
+        "other-value"
+    }
+}
+
+fn classify(cfg: &Cfg, r: &ReqLit) -> Class {
+    let mut silent: Option<String> = None;
+    let mut note = |s: String| {
+        if silent.is_none() {
+            silent = Some(s);
+        }
+    };
+    if r.method != "GET" {
+        return Class::Invalid(format!("method={}", if r.method.eq_ignore_ascii_case("GET") { "get-other-case" } else { r.method.as_str() }));
+    }
+    let (_, path, query) = r.split_uri();
+    if path != "/ws" {
+        return Class::Invalid("path".into());
+    }
+    if !query.is_empty() {
+        note("query-string".into());
+    }
+    // PSK: byte-for-byte
+    if let Some(psk) = &cfg.psk {
+        let vals = r.values("x-penguin-psk");
+        let eq = vals.iter().filter(|v| **v == psk).count();
+        if eq == 0 {
+            let why = vals.first().map_or("absent", |v| relation(v, psk, false));
+            return Class::Invalid(format!("psk={why}"));
+        }
+        if eq != vals.len() {
+            note("psk=duplicate-mixed".into());
+        }
+    }
+    // key: present
+    let keys = r.values("sec-websocket-key");
+    if keys.is_empty() {
+        return Class::Invalid("key=absent".into());
+    }
+    if keys.len() > 1 {
+        note("key=duplicate".into());
+    } else if !key_well_formed(keys[0]) {
+        note("key=malformed".into());
+    }
+    // the four compared headers: case-insensitive equality
+    for (name, want) in [("connection", "upgrade"), ("upgrade", "websocket"), ("sec-websocket-version", "13"), ("sec-websocket-protocol", WANT_PROTOCOL)] {
+        let vals = r.values(name);
+        let eq = vals.iter().filter(|v| v.eq_ignore_ascii_case(want)).count();
+        if eq == 0 {
+            let why = vals.first().map_or("absent", |v| relation(v, want, true));
+            return Class::Invalid(format!("{name}={why}"));
+        }
+        if eq != vals.len() {
+            note(format!("{name}=duplicate-mixed"));
+        }
+    }
+    if !r.on_upgrade {
+        note("no-OnUpgrade-extension".into());
+    }
+    match silent {
+        Some(s) => Class::Silent(s),
+        None => Class::Valid,
+    }
+}
+
+/// The first way a *valid* request deviates from the plainest valid one (for keys).
+fn valid_flavour(cfg: &Cfg, r: &ReqLit) -> String {
+    if r.uri != "/ws" {
+        return "uri-form".into();
+    }
+    for (name, want) in [("connection", "upgrade"), ("upgrade", "websocket"), ("sec-websocket-version", "13"), ("sec-websocket-protocol", WANT_PROTOCOL)] {
+        let v = r.values(name);
+        if v.len() > 1 {
+            return format!("{name}=duplicate-valid");
+        }
+        if v[0] != want {
+            return format!("{name}=case-changed");
+        }
+    }
+    if r.values("sec-websocket-key") != [KEY_SAMPLE] {
+        return "key=other".into();
+    }
+    let p = r.values("x-penguin-psk");
+    if cfg.psk.is_none() && !p.is_empty() {
+        return format!("psk-not-configured.header={}", relation(p[0], PSK, false));
+    }
+    if cfg.psk.is_none() {
+        return "psk-not-configured.header=absent".into();
+    }
+    "plain".into()
+}
+
+// ---------------------------------------------------------------------------------------
+// Observations
+// ---------------------------------------------------------------------------------------
+
+#[derive(Clone, Debug, PartialEq, Eq)]
+enum Out {
+    Resp { status: u16, headers: Vec<(String, Vec<u8>)>, body: Vec<u8> },
+    Err(String),
+    Panic(String),
+    Hang,
+}
+
+impl Out {
+    fn status(&self) -> Option<u16> {
+        match self {
+            Out::Resp { status, .. } => Some(*status),
+            _ => None,
+        }
+    }
+    fn to_json(&self) -> Value {
+        match self {
+            Out::Resp { status, headers, body } => json!({"status": status,
+                "headers": headers.iter().map(|(n, v)| json!([n, String::from_utf8_lossy(v)])).collect::<Vec<_>>(),
+                "body": String::from_utf8_lossy(&body[..body.len().min(400)])}),
+            Out::Err(e) => json!({"service_error": e}),
+            Out::Panic(p) => json!({"panic": p}),
+            Out::Hang => json!("no response within the time limit"),
+        }
+    }
+    fn brief(&self) -> String {
+        let s = self.to_json().to_string();
+        if s.len() > 300 { format!("{}...", &s[..300]) } else { s }
+    }
+}
+
+/// Is `o` a correct 101 for one of the presented keys? `Err(what)` names what is wrong.
+fn check_101(o: &Out, keys: &[&str]) -> Result<(), String> {
+    let Out::Resp { status, headers, .. } = o else { return Err("no-response".into()) };
+    if *status != 101 {
+        return Err(format!("status-{status}"));
+    }
+    let get = |n: &str| headers.iter().filter(|(k, _)| k == n).map(|(_, v)| v.as_slice()).collect::<Vec<_>>();
+    for (n, want) in [("connection", "upgrade"), ("upgrade", "websocket"), ("sec-websocket-protocol", WANT_PROTOCOL)] {
+        let v = get(n);
+        if v.is_empty() || !v.iter().all(|x| x.eq_ignore_ascii_case(want.as_bytes())) {
+            return Err(format!("header-{n}"));
+        }
+    }
+    let acc = get("sec-websocket-accept");
+    if acc.len() != 1 || !keys.iter().any(|k| accept_hash(k.as_bytes()).as_bytes() == acc[0]) {
+        return Err("accept-hash".into());
+    }
+    Ok(())
+}
+
+// ---------------------------------------------------------------------------------------
+// Running the subject in-process
+// ---------------------------------------------------------------------------------------
+
+fn panic_text(e: &(dyn std::any::Any + Send)) -> String {
+    if let Some(s) = e.downcast_ref::<String>() {
+        s.clone()
+    } else if let Some(s) = e.downcast_ref::<&str>() {
+        (*s).to_string()
+    } else {
+        "panic".into()
+    }
+}
+
+async fn catch<F: Future>(f: F) -> Result<F::Output, String> {
+    use std::pin::pin;
+    use std::task::Poll;
+    let mut f = pin!(f);
+    std::future::poll_fn(move |cx| match std::panic::catch_unwind(AssertUnwindSafe(|| f.as_mut().poll(cx))) {
+        Ok(Poll::Ready(v)) => Poll::Ready(Ok(v)),
+        Ok(Poll::Pending) => Poll::Pending,
+        Err(e) => Poll::Ready(Err(panic_text(&*e))),
+    })
+    .await
+}
+
+fn build_request(r: &ReqLit) -> Request<IncomingOrFullBody> {
+    let mut b = Request::builder().method(Method::from_bytes(r.method.as_bytes()).expect("harness: method token")).uri(r.uri.as_str());
+    for (n, v) in &r.headers {
+        b = b.header(HeaderName::from_bytes(n.as_bytes()).expect("harness: header name"), HeaderValue::from_bytes(v.as_bytes()).expect("harness: header value"));
+    }
+    if r.on_upgrade {
+        // exactly what the crate's own positive unit test attaches
+        b = b.extension(hyper::upgrade::on(Request::new(())));
+    }
+    b.body(IncomingOrFullBody::new_full(Bytes::new())).expect("harness: request")
+}
+
+async fn call_subject(state: &State, r: &ReqLit) -> Out {
+    let fut = async {
+        let req = build_request(r);
+        match Service::call(state, req).await {
+            Err(e) => Out::Err(e.to_string()),
+            Ok(resp) => {
+                let (parts, body) = resp.into_parts();
+                let body = match body.collect().await {
+                    Ok(b) => b.to_bytes().to_vec(),
+                    Err(e) => return Out::Err(format!("body: {e}")),
+                };
+                let mut headers: Vec<(String, Vec<u8>)> = parts.headers.iter().map(|(n, v)| (n.as_str().to_string(), v.as_bytes().to_vec())).collect();
+                headers.sort();
+                Out::Resp { status: parts.status.as_u16(), headers, body }
+            }
+        }
+    };
+    match tokio::time::timeout(Duration::from_secs(20), catch(fut)).await {
+        Err(_) => Out::Hang,
+        Ok(Err(p)) => Out::Panic(p),
+        Ok(Ok(o)) => o,
+    }
+}
+
+struct Backends {
+    echo: SocketAddr,
+    down: SocketAddr,
+}
+
+fn leak<T>(x: T) -> &'static T {
+    Box::leak(Box::new(x))
+}
+
+async fn make_state(cfg: &Cfg, backends: Option<&Backends>) -> State {
+    let mut st = State::new().await.expect("State::new").with_not_found_resp(NOT_FOUND_BODY).obfs(cfg.obfs);
+    if let Some(p) = &cfg.psk {
+        st = st.with_ws_psk(Some(leak(HeaderValue::from_str(p).expect("psk value"))));
+    }
+    match cfg.backend.as_str() {
+        "none" => st = st.with_backend_http2_support(false),
+        which => {
+            let b = backends.expect("backend needed");
+            let addr = if which == "echo" { b.echo } else { b.down };
+            let url = BackendUrl::from_str(&format!("http://{addr}")).expect("backend url");
+            st = st.with_backend(Some(leak(url))).backend_add_forwarding_headers(cfg.forwarding_headers).with_client_addr(Some(SocketAddr::from(([192, 0, 2, 7], 4711))));
+        }
+    }
+    st
+}
+
+// ---------------------------------------------------------------------------------------
+// The echo backend (harness side): reflects method, path, headers, body length
+// ---------------------------------------------------------------------------------------
+
+fn fnv(s: &str) -> u64 {
+    s.bytes().fold(0xcbf2_9ce4_8422_2325u64, |h, b| (h ^ u64::from(b)).wrapping_mul(0x0100_0000_01b3))
+}
+
+async fn echo_service(req: Request<hyper::body::Incoming>) -> Result<http::Response<http_body_util::Full<Bytes>>, std::convert::Infallible> {
+    let (parts, body) = req.into_parts();
+    let blen = body.collect().await.map(|b| b.to_bytes().len()).unwrap_or(usize::MAX);
+    let mut hs: Vec<String> = parts.headers.iter().map(|(n, v)| format!("H {}: {}", n.as_str(), String::from_utf8_lossy(v.as_bytes()))).collect();
+    hs.sort();
+    let rest = format!("M {}\nV {:?}\nB {blen}\n{}\n", parts.method, parts.version, hs.join("\n"));
+    let path = parts.uri.path_and_query().map_or("", |p| p.as_str()).to_string();
+    let text = format!("P {path}\n{rest}");
+    Ok(http::Response::builder()
+        .status(207)
+        .header("x-verif-echo-digest", format!("{:016x}", fnv(&rest)))
+        .header("x-verif-echo-path", path)
+        .body(http_body_util::Full::new(Bytes::from(text)))
+        .expect("echo response"))
+}
+
+fn start_backends() -> Backends {
+    let (tx, rx) = std::sync::mpsc::channel();
+    std::thread::spawn(move || {
+        let rt = tokio::runtime::Builder::new_multi_thread().worker_threads(2).enable_all().build().expect("backend runtime");
+        rt.block_on(async move {
+            let l = tokio::net::TcpListener::bind("127.0.0.1:0").await.expect("bind backend");
+            tx.send(l.local_addr().expect("addr")).expect("send addr");
+            loop {
+                let Ok((s, _)) = l.accept().await else { continue };
+                tokio::spawn(async move {
+                    let mut b = hyper::server::conn::http1::Builder::new();
+                    b.auto_date_header(false);
+                    let _ = b.serve_connection(hyper_util::rt::TokioIo::new(s), hyper::service::service_fn(echo_service)).await;
+                });
+            }
+        });
+    });
+    let echo = rx.recv_timeout(Duration::from_secs(10)).expect("backend did not start");
+    // a port nobody listens on
+    let down = {
+        let l = std::net::TcpListener::bind("127.0.0.1:0").expect("bind");
+        l.local_addr().expect("addr")
+    };
+    Backends { echo, down }
+}
+
+/// Make two answers of the echo backend comparable: the reflected path is the one thing that
+/// legitimately differs between a request and its twin; replace it (only if it is exactly the
+/// expected one) by a placeholder.
+fn normalise(o: &Out, own_path_and_query: &str) -> Out {
+    let Out::Resp { status, headers, body } = o else { return o.clone() };
+    let mut headers = headers.clone();
+    for (n, v) in &mut headers {
+        if n == "x-verif-echo-path" && v == own_path_and_query.as_bytes() {
+            *v = b"<own path>".to_vec();
+        }
+    }
+    let mut body = body.clone();
+    let line = format!("P {own_path_and_query}\n");
+    if body.starts_with(line.as_bytes()) {
+        let mut nb = format!("P {}\n", "#".repeat(own_path_and_query.len())).into_bytes();
+        nb.extend_from_slice(&body[line.len()..]);
+        body = nb;
+    }
+    Out::Resp { status: *status, headers, body }
+}
+
+// ---------------------------------------------------------------------------------------
+// Judging one case
+// ---------------------------------------------------------------------------------------
+
+#[derive(Default)]
+struct Tally {
+    evaluations: AtomicU64,
+    cases: AtomicU64,
+    ref_valid: AtomicU64,
+    ref_invalid: AtomicU64,
+    ref_silent: AtomicU64,
+    seen_101: AtomicU64,
+    seen_fallback_equal: AtomicU64,
+    silent_101: AtomicU64,
+    silent_fallback: AtomicU64,
+    backend_reached: AtomicU64,
+    flaky_retries: AtomicU64,
+}
+
+struct Sink<'a> {
+    rep: &'a Mutex<Report>,
+    tally: &'a Tally,
+}
+
+impl Sink<'_> {
+    fn viol(&self, key: String, desc: String, replay: Value) {
+        self.rep.lock().unwrap().violation(key, desc, replay);
+    }
+}
+
+fn replay_json(transport: &str, cfg: &Cfg, r: &ReqLit) -> Value {
+    json!({"kind": "request", "transport": transport, "cfg": cfg.to_json(), "request": r.to_json()})
+}
+
+fn path_class(p: &str) -> &'static str {
+    match p {
+        "/ws" => "ws",
+        "/health" => "health",
+        "/version" => "version",
+        _ if p.eq_ignore_ascii_case("/ws") => "ws-other-case",
+        _ if p.starts_with("/ws") => "ws-prefixed",
+        _ if p.ends_with("/ws") => "ws-suffixed",
+        _ if p.eq_ignore_ascii_case("/health") || p.eq_ignore_ascii_case("/version") || p.starts_with("/health") || p.starts_with("/version") => "health-version-like",
+        _ => "other",
+    }
+}
+
+/// Run one (configuration, request) case in-process and compare with the reference.
+/// Returns the observation (for replay / samples).
+async fn judge_inproc(state: &State, cfg: &Cfg, r: &ReqLit, sink: &Sink<'_>, transport: &str) -> Out {
+    let t = sink.tally;
+    t.cases.fetch_add(1, Ordering::Relaxed);
+    let class = classify(cfg, r);
+    let path = r.path().to_string();
+    let pq = {
+        let (_, p, q) = r.split_uri();
+        format!("{p}{q}")
+    };
+    let out = call_subject(state, r).await;
+    t.evaluations.fetch_add(1, Ordering::Relaxed);
+    let rj = || replay_json(transport, cfg, r);
+    let cfgs = format!("psk {}, obfs {}, backend {}", if cfg.psk.is_some() { "configured" } else { "not configured" }, cfg.obfs, cfg.backend);
+    match &out {
+        Out::Panic(p) => {
+            sink.viol(format!("{transport}.panic.{}", path_class(&path)), format!("the service panicked: {p} [{cfgs}] {}", r.to_json()), rj());
+            return out;
+        }
+        Out::Hang => {
+            sink.viol(format!("{transport}.hang.{}", path_class(&path)), format!("no response within 20 s [{cfgs}] {}", r.to_json()), rj());
+            return out;
+        }
+        _ => {}
+    }
+    if out.status() == Some(101) {
+        t.seen_101.fetch_add(1, Ordering::Relaxed);
+        // let the task spawned by the upgrade path run to its end
+        tokio::task::yield_now().await;
+    }
+    if cfg.backend == "echo" && out.status() == Some(207) {
+        t.backend_reached.fetch_add(1, Ordering::Relaxed);
+    }
+    let keys = r.values("sec-websocket-key");
+    // ---- paths other than /ws never upgrade
+    if path != "/ws" {
+        t.ref_invalid.fetch_add(1, Ordering::Relaxed);
+        if out.status() == Some(101) {
+            sink.viol(format!("{transport}.upgrade-granted.path={}", path_class(&path)), format!("101 for a request whose path is {path:?} [{cfgs}] {}", r.to_json()), rj());
+            return out;
+        }
+        let special = path == "/health" || path == "/version";
+        if special && !cfg.obfs {
+            return out; // the statement leaves the plain /health, /version answers to other properties
+        }
+        if special {
+            // obfuscation: indistinguishable from an unknown path
+            let twin = r.twin();
+            let (tp, tq) = (twin.path().to_string(), twin.split_uri().2.to_string());
+            let mut same = false;
+            let mut last = (out.clone(), out.clone());
+            for attempt in 0..3 {
+                let a = if attempt == 0 { out.clone() } else { call_subject(state, r).await };
+                let b = call_subject(state, &twin).await;
+                t.evaluations.fetch_add(if attempt == 0 { 1 } else { 2 }, Ordering::Relaxed);
+                let (na, nb) = (normalise(&a, &pq), normalise(&b, &format!("{tp}{tq}")));
+                same = na == nb;
+                last = (a, b);
+                if same || cfg.backend == "none" {
+                    break;
+                }
+                t.flaky_retries.fetch_add(1, Ordering::Relaxed);
+            }
+            if same {
+                t.seen_fallback_equal.fetch_add(1, Ordering::Relaxed);
+            } else {
+                sink.viol(
+                    format!("{transport}.obfs.{}-distinguishable", path_class(&path)),
+                    format!("with obfuscation on, {path} answers {} but the unknown path {tp} answers {} [{cfgs}] {}", last.0.brief(), last.1.brief(), r.to_json()),
+                    rj(),
+                );
+            }
+            return out;
+        }
+        // genuinely unknown path: "backend or configured 404"
+        if cfg.backend != "echo" {
+            let ok = matches!(&out, Out::Resp { status: 404, body, .. } if body == NOT_FOUND_BODY.as_bytes());
+            if !ok {
+                sink.viol(format!("{transport}.unknown-path.not-the-configured-404.{}", path_class(&path)), format!("unknown path {path:?} answers {} instead of 404 with the configured body [{cfgs}] {}", out.brief(), r.to_json()), rj());
+            }
+        }
+        return out;
+    }
+    // ---- /ws
+    match &class {
+        Class::Valid => {
+            t.ref_valid.fetch_add(1, Ordering::Relaxed);
+            if let Err(what) = check_101(&out, &keys) {
+                let fl = valid_flavour(cfg, r);
+                if out.status() == Some(101) {
+                    sink.viol(format!("{transport}.101-malformed.{what}"), format!("the 101 response is wrong ({what}): {} [{cfgs}] {}", out.brief(), r.to_json()), rj());
+                } else {
+                    sink.viol(
+                        format!("{transport}.valid-upgrade-refused.psk-{}.{fl}", if cfg.psk.is_some() { "configured" } else { "none" }),
+                        format!("a fully valid upgrade request ({fl}) is answered with {} [{cfgs}] {}", out.brief(), r.to_json()),
+                        rj(),
+                    );
+                }
+            }
+        }
+        Class::Invalid(why) | Class::Silent(why) => {
+            let invalid = matches!(class, Class::Invalid(_));
+            if invalid {
+                t.ref_invalid.fetch_add(1, Ordering::Relaxed);
+            } else {
+                t.ref_silent.fetch_add(1, Ordering::Relaxed);
+            }
+            if out.status() == Some(101) {
+                if invalid {
+                    sink.viol(
+                        format!("{transport}.upgrade-granted.{why}.psk-{}", if cfg.psk.is_some() { "configured" } else { "none" }),
+                        format!("101 although the request is not valid ({why}) [{cfgs}] {}", r.to_json()),
+                        rj(),
+                    );
+                } else if let Err(what) = check_101(&out, &keys) {
+                    sink.viol(format!("{transport}.101-malformed.{what}.{why}"), format!("the 101 response is wrong ({what}): {} [{cfgs}] {}", out.brief(), r.to_json()), rj());
+                } else {
+                    t.silent_101.fetch_add(1, Ordering::Relaxed);
+                }
+                return out;
+            }
+            // must be exactly what the unknown path answers
+            let twin = r.twin();
+            let (tp, tq) = (twin.path().to_string(), twin.split_uri().2.to_string());
+            let mut same = false;
+            let mut last = (out.clone(), out.clone());
+            for attempt in 0..3 {
+                let a = if attempt == 0 { out.clone() } else { call_subject(state, r).await };
+                let b = call_subject(state, &twin).await;
+                t.evaluations.fetch_add(if attempt == 0 { 1 } else { 2 }, Ordering::Relaxed);
+                let (na, nb) = (normalise(&a, &pq), normalise(&b, &format!("{tp}{tq}")));
+                same = na == nb;
+                last = (a, b);
+                if same || cfg.backend == "none" {
+                    break;
+                }
+                t.flaky_retries.fetch_add(1, Ordering::Relaxed);
+            }
+            if same {
+                t.seen_fallback_equal.fetch_add(1, Ordering::Relaxed);
+                if !invalid {
+                    t.silent_fallback.fetch_add(1, Ordering::Relaxed);
+                }
+            } else {
+                sink.viol(
+                    format!("{transport}.ws-fallback-differs.{why}"),
+                    format!("a non-upgradable request to /ws ({why}) answers {} but the same request on the unknown path {tp} answers {} [{cfgs}] {}", last.0.brief(), last.1.brief(), r.to_json()),
+                    rj(),
+                );
+            }
+        }
+    }
+    out
+}
+
+// ---------------------------------------------------------------------------------------
+// The domain
+// ---------------------------------------------------------------------------------------
+
+struct Variant {
+    label: &'static str,
+    /// header values (for header dimensions) or the single literal (method / uri)
+    values: &'static [&'static str],
+    /// member of the design's core product
+    core: bool,
+}
+
+const fn v(label: &'static str, values: &'static [&'static str], core: bool) -> Variant {
+    Variant { label, values, core }
+}
+
+struct Dim {
+    name: &'static str,
+    /// header name, or "" for method / uri / on_upgrade
+    header: &'static str,
+    variants: Vec<Variant>,
+}
+
+fn compared_header(name: &'static str, header: &'static str, want: &'static [&'static str; 6]) -> Dim {
+    // want = [exact, case-changed, near-miss, proper prefix, extended, other value]
+    let l = |xs: Vec<&'static str>| -> &'static [&'static str] { Box::leak(xs.into_boxed_slice()) };
+    Dim {
+        name,
+        header,
+        variants: vec![
+            v("exact", l(vec![want[0]]), true),
+            v("absent", &[], true),
+            v("case-changed", l(vec![want[1]]), true),
+            v("near-miss", l(vec![want[2]]), true),
+            v("empty", &[""], true),
+            v("dup-valid-valid", l(vec![want[0], want[1]]), true),
+            v("dup-valid-invalid", l(vec![want[0], want[2]]), true),
+            v("dup-invalid-valid", l(vec![want[2], want[0]]), false),
+            v("proper-prefix", l(vec![want[3]]), false),
+            v("extended", l(vec![want[4]]), false),
+            v("other-value", l(vec![want[5]]), false),
+        ],
+    }
+}
+
+fn dims() -> Vec<Dim> {
+    vec![
+        Dim { name: "method", header: "", variants: vec![v("GET", &["GET"], true), v("POST", &["POST"], true), v("HEAD", &["HEAD"], true), v("PUT", &["PUT"], true), v("get", &["get"], false), v("DELETE", &["DELETE"], false), v("OPTIONS", &["OPTIONS"], false)] },
+        Dim {
+            name: "uri",
+            header: "",
+            variants: vec![
+                v("/ws", &["/ws"], true),
+                v("/ws/", &["/ws/"], true),
+                v("/WS", &["/WS"], true),
+                v("/x", &["/x"], true),
+                v("/health", &["/health"], true),
+                v("/version", &["/version"], true),
+                v("absolute-/ws", &["http://h.test/ws"], false),
+                v("/ws?query", &["/ws?x=1"], false),
+                v("/wsx", &["/wsx"], false),
+                v("/w", &["/w"], false),
+                v("//ws", &["//ws"], false),
+                v("/x/ws", &["/x/ws"], false),
+                v("/", &["/"], false),
+                v("/Health", &["/Health"], false),
+                v("/health/", &["/health/"], false),
+                v("absolute-/health", &["http://h.test/health"], false),
+                v("/version?query", &["/version?v=1"], false),
+            ],
+        },
+        compared_header("connection", "connection", &["upgrade", "UpGrAdE", "keep-alive, upgrade", "upgrad", "upgrade2", "close"]),
+        compared_header("upgrade", "upgrade", &["websocket", "WEBSOCKET", "websocket2", "websocke", "websocket/13", "h2c"]),
+        compared_header("version", "sec-websocket-version", &["13", "13", "12", "1", "130", "8"]),
+        compared_header("protocol", "sec-websocket-protocol", &["penguin-v7", "Penguin-V7", "penguin-v6", "penguin-v", "penguin-v70", "chat"]),
+        Dim {
+            name: "key",
+            header: "sec-websocket-key",
+            variants: vec![
+                v("rfc-sample", &[KEY_SAMPLE], true),
+                v("absent", &[], true),
+                v("other", &[KEY_OTHER], true),
+                v("empty", &[""], false),
+                v("malformed", &["not a key"], false),
+                v("duplicate", &[KEY_SAMPLE, KEY_OTHER], false),
+            ],
+        },
+        Dim {
+            name: "psk-header",
+            header: "x-penguin-psk",
+            variants: vec![
+                v("equal", &[PSK], true),
+                v("absent", &[], true),
+                v("proper-prefix", &["Correct-Psk_"], true),
+                v("case-variant", &["correct-psk_1"], true),
+                v("padded", &["Correct-Psk_1 "], true),
+                v("extended", &["Correct-Psk_1x"], false),
+                v("empty", &[""], false),
+                v("lead-padded", &[" Correct-Psk_1"], false),
+                v("other-value", &["hunter2"], false),
+                v("dup-equal-wrong", &[PSK, "hunter2"], false),
+                v("dup-wrong-equal", &["hunter2", PSK], false),
+            ],
+        },
+        Dim { name: "on-upgrade", header: "", variants: vec![v("present", &["1"], true), v("absent", &["0"], true)] },
+    ]
+}
+
+/// `sec-websocket-version` has no case: its "case-changed" variant equals "exact"; the literal
+/// would repeat. Remove literal duplicates inside each dimension so that distinct index
+/// vectors are distinct requests.
+fn dedup_dims(mut ds: Vec<Dim>) -> Vec<Dim> {
+    for d in &mut ds {
+        let mut seen: HashSet<Vec<&str>> = HashSet::new();
+        d.variants.retain(|x| seen.insert(x.values.to_vec()));
+    }
+    ds
+}
+
+fn literal(ds: &[Dim], idx: &[usize]) -> ReqLit {
+    let mut r = ReqLit { method: String::new(), uri: String::new(), headers: Vec::with_capacity(10), on_upgrade: true };
+    for (d, &i) in ds.iter().zip(idx) {
+        let var = &d.variants[i];
+        match d.name {
+            "method" => r.method = var.values[0].to_string(),
+            "uri" => r.uri = var.values[0].to_string(),
+            "on-upgrade" => r.on_upgrade = var.values[0] == "1",
+            _ => {
+                for val in var.values {
+                    r.headers.push((d.header.to_string(), (*val).to_string()));
+                }
+            }
+        }
+    }
+    r
+}
+
+fn describe(ds: &[Dim], idx: &[usize]) -> String {
+    ds.iter().zip(idx).filter(|(_, i)| **i != 0).map(|(d, &i)| format!("{}={}", d.name, d.variants[i].label)).collect::<Vec<_>>().join(",")
+}
+
+/// All index vectors with at most `k` non-base entries; `allowed[d]` lists the usable variants.
+fn deviations(allowed: &[Vec<usize>], k: usize) -> Vec<Vec<usize>> {
+    fn rec(allowed: &[Vec<usize>], d: usize, left: usize, cur: &mut Vec<usize>, out: &mut Vec<Vec<usize>>) {
+        if d == allowed.len() {
+            out.push(cur.clone());
+            return;
+        }
+        cur.push(0);
+        rec(allowed, d + 1, left, cur, out);
+        cur.pop();
+        if left > 0 {
+            for &i in &allowed[d] {
+                if i != 0 {
+                    cur.push(i);
+                    rec(allowed, d + 1, left - 1, cur, out);
+                    cur.pop();
+                }
+            }
+        }
+    }
+    let mut out = Vec::new();
+    rec(allowed, 0, k, &mut Vec::new(), &mut out);
+    out
+}
+
+fn inproc_cfgs(backend: &str, fwd: &[bool]) -> Vec<Cfg> {
+    let mut v = Vec::new();
+    for psk in [None, Some(PSK.to_string())] {
+        for obfs in [false, true] {
+            for f in fwd {
+                v.push(Cfg { psk: psk.clone(), obfs, backend: backend.into(), forwarding_headers: *f });
+            }
+        }
+    }
+    v
+}
+
+fn runtime() -> tokio::runtime::Runtime {
+    tokio::runtime::Builder::new_current_thread().enable_all().build().expect("tokio runtime")
+}
+
+/// Run `work(i)` for every i in 0..n on `threads` workers; each worker owns a runtime and its
+/// own `State` per configuration.
+fn run_parallel(threads: usize, cfgs: &[Cfg], backends: Option<&Backends>, n: u64, sink: &Sink<'_>, ds: &[Dim], decode: &(dyn Fn(u64) -> Vec<usize> + Sync), transport: &str, samples: &Mutex<Vec<Value>>, sample_every: u64) {
+    let next = AtomicU64::new(0);
+    const CHUNK: u64 = 256;
+    std::thread::scope(|s| {
+        for _ in 0..threads {
+            s.spawn(|| {
+                let rt = runtime();
+                let states: Vec<State> = cfgs.iter().map(|c| rt.block_on(make_state(c, backends))).collect();
+                loop {
+                    let lo = next.fetch_add(CHUNK, Ordering::Relaxed);
+                    if lo >= n {
+                        break;
+                    }
+                    let hi = (lo + CHUNK).min(n);
+                    rt.block_on(async {
+                        for i in lo..hi {
+                            let idx = decode(i);
+                            let r = literal(ds, &idx);
+                            for (cfg, st) in cfgs.iter().zip(&states) {
+                                let out = judge_inproc(st, cfg, &r, sink, transport).await;
+                                if sample_every > 0 && i % sample_every == sample_every / 2 && cfg.psk.is_some() && !cfg.obfs {
+                                    samples.lock().unwrap().push(json!({"transport": transport, "deviations": describe(ds, &idx), "cfg": cfg.to_json(), "request": r.to_json(), "reference": format!("{:?}", classify(cfg, &r)), "observed": out.to_json()}));
+                                }
+                            }
+                        }
+                    });
+                }
+            });
+        }
+    });
+}
+
+// ---------------------------------------------------------------------------------------
+// Wire pass: literal HTTP/1.1 bytes through the public `serve_connection`
+// ---------------------------------------------------------------------------------------
+
+fn wire_bytes(r: &ReqLit) -> Vec<u8> {
+    let mut s = format!("{} {} HTTP/1.1\r\nhost: verif.test\r\n", r.method, r.uri);
+    for (n, v) in &r.headers {
+        s.push_str(&format!("{n}: {v}\r\n"));
+    }
+    s.push_str("\r\n");
+    s.into_bytes()
+}
+
+#[derive(Clone, Debug, PartialEq, Eq)]
+struct WireOut {
+    out: Out,
+    /// after a 101: did a WebSocket endpoint answer our Ping with the matching Pong?
+    tunnel_alive: Option<bool>,
+}
+
+async fn wire_call(state: &State, r: &ReqLit) -> WireOut {
+    use tokio::io::{AsyncReadExt, AsyncWriteExt};
+    let fut = async {
+        let l = tokio::net::TcpListener::bind("127.0.0.1:0").await.expect("bind");
+        let addr = l.local_addr().expect("addr");
+        let (c, s) = tokio::join!(tokio::net::TcpStream::connect(addr), l.accept());
+        let mut c = c.expect("connect");
+        let (s, peer) = s.expect("accept");
+        let st = state.clone().with_client_addr(Some(peer));
+        let server = tokio::spawn(async move {
+            let _ = catch(rusty_penguin_lib::server::serve_connection(rusty_penguin_lib::tls::MaybeTlsStream::Plain(s), st)).await;
+        });
+        c.write_all(&wire_bytes(r)).await.expect("write request");
+        // read the head
+        let mut buf = Vec::new();
+        let mut tmp = [0u8; 2048];
+        let head_end = loop {
+            if let Some(p) = buf.windows(4).position(|w| w == b"\r\n\r\n") {
+                break Some(p + 4);
+            }
+            match c.read(&mut tmp).await {
+                Ok(0) | Err(_) => break None,
+                Ok(n) => buf.extend_from_slice(&tmp[..n]),
+            }
+        };
+        let Some(head_end) = head_end else {
+            server.abort();
+            return WireOut { out: Out::Err(format!("connection closed without a response head ({} bytes)", buf.len())), tunnel_alive: None };
+        };
+        let head = String::from_utf8_lossy(&buf[..head_end]).to_string();
+        let mut lines = head.split("\r\n");
+        let status_line = lines.next().unwrap_or("");
+        let status: u16 = status_line.split(' ').nth(1).and_then(|x| x.parse().ok()).unwrap_or(0);
+        let mut headers: Vec<(String, Vec<u8>)> = Vec::new();
+        let mut clen = 0usize;
+        for l in lines {
+            if let Some((n, v)) = l.split_once(':') {
+                let n = n.to_ascii_lowercase();
+                let v = v.trim();
+                if n == "content-length" {
+                    clen = v.parse().unwrap_or(0);
+                }
+                if n != "date" {
+                    headers.push((n, v.as_bytes().to_vec()));
+                }
+            }
+        }
+        headers.sort();
+        headers.push(("<status-line>".into(), status_line.as_bytes().to_vec()));
+        let mut body = buf[head_end..].to_vec();
+        let mut tunnel_alive = None;
+        if status == 101 {
+            // masked Ping "verif" -> expect Pong "verif"
+            let mask = [0x11u8, 0x22, 0x33, 0x44];
+            let mut f = vec![0x89, 0x80 | 5];
+            f.extend_from_slice(&mask);
+            f.extend(b"verif".iter().enumerate().map(|(i, b)| b ^ mask[i % 4]));
+            let _ = c.write_all(&f).await;
+            let want = [0x8Au8, 0x05, b'v', b'e', b'r', b'i', b'f'];
+            let got = tokio::time::timeout(Duration::from_secs(5), async {
+                while body.len() < want.len() {
+                    match c.read(&mut tmp).await {
+                        Ok(0) | Err(_) => break,
+                        Ok(n) => body.extend_from_slice(&tmp[..n]),
+                    }
+                }
+            })
+            .await;
+            tunnel_alive = Some(got.is_ok() && body.starts_with(&want));
+            body.clear();
+        } else if r.method != "HEAD" {
+            while body.len() < clen {
+                match c.read(&mut tmp).await {
+                    Ok(0) | Err(_) => break,
+                    Ok(n) => body.extend_from_slice(&tmp[..n]),
+                }
+            }
+        }
+        drop(c);
+        server.abort();
+        WireOut { out: Out::Resp { status, headers, body }, tunnel_alive }
+    };
+    match tokio::time::timeout(Duration::from_secs(20), catch(fut)).await {
+        Err(_) => WireOut { out: Out::Hang, tunnel_alive: None },
+        Ok(Err(p)) => WireOut { out: Out::Panic(p), tunnel_alive: None },
+        Ok(Ok(o)) => o,
+    }
+}
+
+async fn judge_wire(state: &State, cfg: &Cfg, r: &ReqLit, sink: &Sink<'_>) -> WireOut {
+    let t = sink.tally;
+    t.cases.fetch_add(1, Ordering::Relaxed);
+    // on the wire the OnUpgrade extension is supplied by hyper itself
+    let r = &ReqLit { on_upgrade: true, ..r.clone() };
+    let class = classify(cfg, r);
+    let path = r.path().to_string();
+    let w = wire_call(state, r).await;
+    t.evaluations.fetch_add(1, Ordering::Relaxed);
+    let rj = || replay_json("wire", cfg, r);
+    let cfgs = format!("psk {}, obfs {}", if cfg.psk.is_some() { "configured" } else { "not configured" }, cfg.obfs);
+    let keys = r.values("sec-websocket-key");
+    match &w.out {
+        Out::Panic(p) => {
+            sink.viol(format!("wire.panic.{}", path_class(&path)), format!("panic: {p} [{cfgs}] {}", r.to_json()), rj());
+            return w;
+        }
+        Out::Hang | Out::Err(_) => {
+            sink.viol(format!("wire.no-response.{}", path_class(&path)), format!("{} [{cfgs}] {}", w.out.brief(), r.to_json()), rj());
+            return w;
+        }
+        Out::Resp { .. } => {}
+    }
+    let is101 = w.out.status() == Some(101);
+    if is101 {
+        t.seen_101.fetch_add(1, Ordering::Relaxed);
+    }
+    let must_equal_twin;
+    if path != "/ws" {
+        t.ref_invalid.fetch_add(1, Ordering::Relaxed);
+        if is101 {
+            sink.viol(format!("wire.upgrade-granted.path={}", path_class(&path)), format!("101 on path {path:?} [{cfgs}] {}", r.to_json()), rj());
+            return w;
+        }
+        must_equal_twin = cfg.obfs && (path == "/health" || path == "/version");
+        if !must_equal_twin && path != "/health" && path != "/version" {
+            let ok = matches!(&w.out, Out::Resp { status: 404, body, .. } if body == NOT_FOUND_BODY.as_bytes());
+            if !ok {
+                sink.viol(format!("wire.unknown-path.not-the-configured-404.{}", path_class(&path)), format!("{} [{cfgs}] {}", w.out.brief(), r.to_json()), rj());
+            }
+        }
+    } else {
+        match &class {
+            Class::Valid => {
+                t.ref_valid.fetch_add(1, Ordering::Relaxed);
+                // hyper adds nothing to 101 but the date; check the required parts
+                let stripped = match &w.out {
+                    Out::Resp { status, headers, body } => Out::Resp { status: *status, headers: headers.iter().filter(|(n, _)| n != "<status-line>").cloned().collect(), body: body.clone() },
+                    o => o.clone(),
+                };
+                if let Err(what) = check_101(&stripped, &keys) {
+                    let key = if is101 { format!("wire.101-malformed.{what}") } else { format!("wire.valid-upgrade-refused.psk-{}.{}", if cfg.psk.is_some() { "configured" } else { "none" }, valid_flavour(cfg, r)) };
+                    sink.viol(key, format!("valid upgrade request answered with {} [{cfgs}] {}", w.out.brief(), r.to_json()), rj());
+                } else if w.tunnel_alive != Some(true) {
+                    sink.viol("wire.101-without-tunnel".into(), format!("101 was sent but no WebSocket endpoint answered a Ping on the upgraded connection [{cfgs}] {}", r.to_json()), rj());
+                }
+                return w;
+            }
+            Class::Invalid(why) => {
+                t.ref_invalid.fetch_add(1, Ordering::Relaxed);
+                if is101 {
+                    sink.viol(format!("wire.upgrade-granted.{why}.psk-{}", if cfg.psk.is_some() { "configured" } else { "none" }), format!("101 although the request is not valid ({why}) [{cfgs}] {}", r.to_json()), rj());
+                    return w;
+                }
+                must_equal_twin = true;
+            }
+            Class::Silent(_) => {
+                t.ref_silent.fetch_add(1, Ordering::Relaxed);
+                if is101 {
+                    t.silent_101.fetch_add(1, Ordering::Relaxed);
+                    return w;
+                }
+                must_equal_twin = true;
+            }
+        }
+    }
+    if must_equal_twin {
+        let twin = r.twin();
+        let tw = wire_call(state, &twin).await;
+        t.evaluations.fetch_add(1, Ordering::Relaxed);
+        if tw.out == w.out {
+            t.seen_fallback_equal.fetch_add(1, Ordering::Relaxed);
+        } else {
+            let why = match &class {
+                Class::Invalid(w) | Class::Silent(w) => w.clone(),
+                Class::Valid => "valid".into(),
+            };
+            let key = if path == "/ws" { format!("wire.ws-fallback-differs.{why}") } else { format!("wire.obfs.{}-distinguishable", path_class(&path)) };
+            sink.viol(key, format!("{path} answers {} but the unknown path {} answers {} [{cfgs}] {}", w.out.brief(), twin.path(), tw.out.brief(), r.to_json()), rj());
+        }
+    }
+    w
+}
+
+// ---------------------------------------------------------------------------------------
+// Driver
+// ---------------------------------------------------------------------------------------
+
+fn self_test() -> Result<(), String> {
+    // RFC 3174 / RFC 4648 / RFC 6455 vectors for the harness's own primitives
+    let hex = |b: &[u8]| b.iter().map(|x| format!("{x:02x}")).collect::<String>();
+    if hex(&sha1(b"abc")) != "a9993e364706816aba3e25717850c26c9cd0d89d" || hex(&sha1(b"")) != "da39a3ee5e6b4b0d3255bfef95601890afd80709" {
+        return Err("own SHA-1 fails the RFC 3174 vectors".into());
+    }
+    if hex(&sha1(b"abcdbcdecdefdefgefghfghighijhijkijkljklmklmnlmnomnopnopq")) != "84983e441c3bd26ebaae4aa1f95129e5e54670f1" {
+        return Err("own SHA-1 fails the two-block vector".into());
+    }
+    if base64(b"") != "" || base64(b"f") != "Zg==" || base64(b"fo") != "Zm8=" || base64(b"foobar") != "Zm9vYmFy" {
+        return Err("own base64 fails the RFC 4648 vectors".into());
+    }
+    if accept_hash(KEY_SAMPLE.as_bytes()) != "s3pPLMBiTxaQ9kYGzzhZRbK+xOo=" {
+        return Err("own accept hash fails the RFC 6455 example".into());
+    }
+    Ok(())
+}
+
+fn replay(args: &Args, v: &Value, mut rep: Report) -> Report {
+    let cfg = Cfg::from_json(&v["cfg"]);
+    let r = ReqLit::from_json(&v["request"]);
+    let transport = v["transport"].as_str().unwrap_or("inproc").to_string();
+    let backends = (cfg.backend != "none").then(start_backends);
+    let tally = Tally::default();
+    let rep_m = Mutex::new(Report::new("C14", &args.tier, "enum", "exploration"));
+    let sink = Sink { rep: &rep_m, tally: &tally };
+    let rt = runtime();
+    let mut obs = Vec::new();
+    for _ in 0..2 {
+        let o = rt.block_on(async {
+            let st = make_state(&cfg, backends.as_ref()).await;
+            if transport == "wire" {
+                let w = judge_wire(&st, &cfg, &r, &sink).await;
+                json!({"response": w.out.to_json(), "tunnel_alive": w.tunnel_alive})
+            } else {
+                judge_inproc(&st, &cfg, &r, &sink, &transport).await.to_json()
+            }
+        });
+        obs.push(o);
+    }
+    let inner = rep_m.into_inner().unwrap();
+    for mut vi in inner.violations {
+        vi.count = vi.count.div_ceil(2);
+        rep.violations.push(vi);
+    }
+    if obs[0] != obs[1] {
+        rep.machinery_error = Some(format!("replay is not deterministic: {} vs {}", obs[0], obs[1]));
+    }
+    rep.evaluations = tally.evaluations.load(Ordering::Relaxed);
+    rep.distinct_nontrivial = 1;
+    rep.rule = "replay of one recorded (configuration, request) case, executed twice on fresh State values; observations must agree".into();
+    rep.extra.insert("replayed".into(), v.clone());
+    rep.extra.insert("reference_class".into(), json!(format!("{:?}", classify(&cfg, &r))));
+    rep.extra.insert("observations".into(), json!(obs));
+    rep
+}
 
 pub fn run(args: &Args) -> Report {
     let mut rep = Report::new("C14", &args.tier, "enum", "exploration");
-    rep.machinery_error = Some("not built yet".into());
+    std::panic::set_hook(Box::new(|_| {}));
+    rusty_penguin_lib::tls::init_crypto_provider();
+    if let Err(e) = self_test() {
+        rep.machinery_error = Some(e);
+        return rep;
+    }
+    if let Some(v) = args.replay_json() {
+        return replay(args, &v, rep);
+    }
+    let thorough = args.thorough();
+    let threads = args.threads.clamp(1, 32);
+    let ds = dedup_dims(dims());
+    let all: Vec<Vec<usize>> = ds.iter().map(|d| (0..d.variants.len()).collect()).collect();
+    let core: Vec<Vec<usize>> = ds.iter().map(|d| (0..d.variants.len()).filter(|&i| d.variants[i].core).collect()).collect();
+    let tally = Tally::default();
+    let rep_m = Mutex::new(rep);
+    let sink = Sink { rep: &rep_m, tally: &tally };
+    let samples: Mutex<Vec<Value>> = Mutex::new(Vec::new());
+    let mut distinct: u64 = 0;
+
+    // ---- pass 1: in-process, no backend
+    let cfgs = inproc_cfgs("none", &[false]);
+    let k_ext = if thorough { 3 } else { 2 };
+    let mut dev = deviations(&all, k_ext);
+    if !thorough {
+        // quick also covers three simultaneous deviations over the core variants
+        let extra = deviations(&core, 3);
+        let have: HashSet<Vec<usize>> = dev.iter().cloned().collect();
+        dev.extend(extra.into_iter().filter(|x| !have.contains(x)));
+    }
+    let is_core = |idx: &[usize]| idx.iter().zip(&ds).all(|(&i, d)| d.variants[i].core);
+    if thorough {
+        dev.retain(|x| !is_core(x)); // the complete core product below contains them
+    }
+    {
+        // literal distinctness of the enumerated requests (measured, not assumed)
+        let lits: HashSet<ReqLit> = dev.iter().map(|i| literal(&ds, i)).collect();
+        if lits.len() != dev.len() {
+            let mut rep = rep_m.into_inner().unwrap();
+            rep.machinery_error = Some("the deviation domain contains literal duplicates".into());
+            return rep;
+        }
+    }
+    let dev_n = dev.len() as u64;
+    run_parallel(threads, &cfgs, None, dev_n, &sink, &ds, &|i| dev[i as usize].clone(), "inproc", &samples, (dev_n / 3).max(1));
+    distinct += dev_n * cfgs.len() as u64;
+    let mut core_n = 0u64;
+    if thorough {
+        core_n = core.iter().map(|c| c.len() as u64).product();
+        let decode = |mut i: u64| -> Vec<usize> {
+            core.iter()
+                .map(|c| {
+                    let k = c[(i % c.len() as u64) as usize];
+                    i /= c.len() as u64;
+                    k
+                })
+                .collect()
+        };
+        run_parallel(threads, &cfgs, None, core_n, &sink, &ds, &decode, "inproc", &samples, 0);
+        distinct += core_n * cfgs.len() as u64;
+    }
+    let inproc_cases = tally.cases.load(Ordering::Relaxed);
+
+    // ---- pass 2: a backend is configured (echo: reachable; down: unreachable)
+    let backends = start_backends();
+    let bdev = deviations(&all, if thorough { 2 } else { 1 });
+    let bdev_core = deviations(&core, 2);
+    let mut bset: Vec<Vec<usize>> = bdev.clone();
+    let have: HashSet<Vec<usize>> = bset.iter().cloned().collect();
+    bset.extend(bdev_core.into_iter().filter(|x| !have.contains(x)));
+    let echo_cfgs = inproc_cfgs("echo", if thorough { &[false, true] } else { &[false] });
+    let bthreads = threads.min(8);
+    run_parallel(bthreads, &echo_cfgs, Some(&backends), bset.len() as u64, &sink, &ds, &|i| bset[i as usize].clone(), "backend", &samples, (bset.len() as u64 / 2).max(1));
+    distinct += (bset.len() * echo_cfgs.len()) as u64;
+    let down_cfgs = inproc_cfgs("down", &[false]);
+    let dset = deviations(&all, 1);
+    run_parallel(bthreads, &down_cfgs, Some(&backends), dset.len() as u64, &sink, &ds, &|i| dset[i as usize].clone(), "backend-down", &samples, 0);
+    distinct += (dset.len() * down_cfgs.len()) as u64;
+    // sanity of the harness's own backend: a plain unknown path must reach it
+    {
+        let rt = runtime();
+        let cfg = &echo_cfgs[0];
+        let probe = ReqLit { method: "GET".into(), uri: "/zz".into(), headers: vec![("x-probe".into(), "1".into())], on_upgrade: false };
+        let o = rt.block_on(async { call_subject(&make_state(cfg, Some(&backends)).await, &probe).await });
+        let ok = matches!(&o, Out::Resp { status: 207, body, .. } if body.starts_with(b"P /zz\nM GET\n") && String::from_utf8_lossy(body).contains("H x-probe: 1"));
+        if !ok {
+            let mut rep = rep_m.into_inner().unwrap();
+            rep.machinery_error = Some(format!("the harness's echo backend is not reached / does not reflect: {}", o.brief()));
+            return rep;
+        }
+    }
+
+    // ---- pass 3: literal bytes over loopback TCP through serve_connection
+    let wcfgs = inproc_cfgs("none", &[false]);
+    // the on-upgrade dimension does not exist on the wire
+    let wire_allowed: Vec<Vec<usize>> = all.iter().zip(&ds).map(|(a, d)| if d.name == "on-upgrade" { vec![0] } else { a.clone() }).collect();
+    let wset = deviations(&wire_allowed, if thorough { 2 } else { 1 });
+    {
+        let next = AtomicU64::new(0);
+        let wthreads = threads.min(8);
+        std::thread::scope(|s| {
+            for _ in 0..wthreads {
+                s.spawn(|| {
+                    let rt = tokio::runtime::Builder::new_current_thread().enable_all().build().expect("rt");
+                    let states: Vec<State> = wcfgs.iter().map(|c| rt.block_on(make_state(c, None))).collect();
+                    loop {
+                        let i = next.fetch_add(1, Ordering::Relaxed) as usize;
+                        let Some(idx) = wset.get(i) else { break };
+                        let r = literal(&ds, idx);
+                        for (cfg, st) in wcfgs.iter().zip(&states) {
+                            let w = rt.block_on(judge_wire(st, cfg, &r, &sink));
+                            if i == 0 && cfg.psk.is_some() && !cfg.obfs {
+                                samples.lock().unwrap().push(json!({"transport": "wire", "cfg": cfg.to_json(), "request_bytes": String::from_utf8_lossy(&wire_bytes(&r)), "observed": w.out.to_json(), "tunnel_alive": w.tunnel_alive}));
+                            }
+                        }
+                    }
+                });
+            }
+        });
+    }
+    distinct += (wset.len() * wcfgs.len()) as u64;
+
+    let mut rep = rep_m.into_inner().unwrap();
+    rep.evaluations = tally.evaluations.load(Ordering::Relaxed);
+    rep.distinct_nontrivial = distinct;
+    if tally.cases.load(Ordering::Relaxed) != distinct {
+        rep.machinery_error = Some(format!("executed {} cases but the domain has {distinct}", tally.cases.load(Ordering::Relaxed)));
+    }
+    rep.exhaustive = true;
+    rep.rule = format!(
+        "pass inproc: every request with at most {k_ext} simultaneous deviations from the fully valid upgrade request over the extended variant tables{} x 4 configurations (PSK configured or not x obfs on/off); pass backend: same construction (smaller bound) with a reachable reflecting backend and with an unreachable backend; pass wire: literal HTTP/1.1 bytes over loopback TCP through serve_connection. A case is one distinct (configuration, literal request) pair.",
+        if thorough { " plus the complete product of the core variants (method 4 x path 6 x 7 variants of each compared header (6 for the version) x key 3 x PSK header 5 x OnUpgrade 2)" } else { " plus at most 3 deviations over the core variants" }
+    );
+    rep.bounds.insert("dimensions".into(), json!(ds.iter().map(|d| json!({"name": d.name, "variants": d.variants.iter().map(|x| json!({"label": x.label, "literal": x.values, "core": x.core})).collect::<Vec<_>>()})).collect::<Vec<_>>()));
+    rep.bounds.insert("inproc_deviation_requests".into(), json!(dev_n));
+    rep.bounds.insert("inproc_max_deviations_extended".into(), json!(k_ext));
+    rep.bounds.insert("inproc_core_product_requests".into(), json!(core_n));
+    rep.bounds.insert("inproc_cases(cfg x request)".into(), json!(inproc_cases));
+    rep.bounds.insert("backend_echo_requests".into(), json!(bset.len()));
+    rep.bounds.insert("backend_echo_configurations".into(), json!(echo_cfgs.len()));
+    rep.bounds.insert("backend_down_requests".into(), json!(dset.len()));
+    rep.bounds.insert("wire_requests".into(), json!(wset.len()));
+    rep.bounds.insert("configurations".into(), json!(cfgs.iter().map(Cfg::to_json).collect::<Vec<_>>()));
+    let g = |a: &AtomicU64| a.load(Ordering::Relaxed);
+    rep.extra.insert("reference_valid_cases".into(), json!(g(&tally.ref_valid)));
+    rep.extra.insert("reference_invalid_cases".into(), json!(g(&tally.ref_invalid)));
+    rep.extra.insert("reference_undecided_cases".into(), json!(g(&tally.ref_silent)));
+    rep.extra.insert("observed_101".into(), json!(g(&tally.seen_101)));
+    rep.extra.insert("observed_fallback_equal_to_unknown_path".into(), json!(g(&tally.seen_fallback_equal)));
+    rep.extra.insert("undecided_answered_101".into(), json!(g(&tally.silent_101)));
+    rep.extra.insert("undecided_answered_fallback".into(), json!(g(&tally.silent_fallback)));
+    rep.extra.insert("backend_answers_seen".into(), json!(g(&tally.backend_reached)));
+    rep.extra.insert("backend_flaky_retries".into(), json!(g(&tally.flaky_retries)));
+    rep.extra.insert("build_profile".into(), json!(if cfg!(debug_assertions) { "checked" } else { "release" }));
+    for s in samples.into_inner().unwrap() {
+        rep.sample(s);
+    }
+    rep.assumptions.push("where the statement is silent (duplicate header with one valid and one invalid value, duplicate / empty / malformed Sec-WebSocket-Key, query string on /ws, missing OnUpgrade extension) only totality is demanded: a correct 101 or exactly the unknown-path response".into());
+    rep.assumptions.push("the unknown path a request is compared with has the same length as the original path (/zz for /ws), so that length-dependent parts of a backend's answer cannot differ".into());
+    rep.assumptions.push("header values are those listed in bounds.dimensions; arbitrary other byte strings are not enumerated (the gate only compares for equality)".into());
+    rep.assumptions.push("in-process requests carry an OnUpgrade made by hyper::upgrade::on(Request::new(())) as in the crate's own positive test; 'starts a tunnel' is observed only in the wire pass (a Ping on the upgraded connection is answered by a Pong)".into());
+    rep.assumptions.push("requests are HTTP/1.1 with an empty body; HTTP/2 (extended CONNECT) is out of scope of the statement".into());
+    // vacuity guard: the domain must contain valid and invalid requests and the backend must have been exercised
+    if g(&tally.ref_valid) == 0 || g(&tally.ref_invalid) == 0 || g(&tally.ref_silent) == 0 {
+        rep.machinery_error = Some("degenerate domain (no valid, no invalid or no undecided requests)".into());
+    }
+    if rep.violations.is_empty() && (g(&tally.seen_101) == 0 || g(&tally.seen_fallback_equal) == 0 || g(&tally.backend_reached) == 0) {
+        rep.machinery_error = Some("degenerate run: no 101, no fallback or no backend answer was observed".into());
+    }
     rep
 }
